@@ -176,8 +176,7 @@ def _int_extra_ranges():
     global _INT_EXTRA
     if _INT_EXTRA is None:
         r = [(0x2B, 0x2B), (0x2D, 0x2D), (0x5F, 0x5F)] + list(unicode_ranges("isspace"))
-        r += [(a, b) for a, b in unicode_ranges("isdecimal") if a > 0x39]
-        _INT_EXTRA = r
+        _INT_EXTRA = sorted(r)
     return _INT_EXTRA
 
 
@@ -194,6 +193,26 @@ def exclude(label):
     raise ExcludedInput(label)
 
 
+def _unicode_digit_value(z):
+    """(is_decimal_digit, value 0-9) of a code point term: Unicode decimal digits come in runs of ten consecutive
+    code points starting at a zero digit (checked against the running interpreter when the table is built)"""
+    global _DEC_RUNS
+    if _DEC_RUNS is None:
+        runs = []
+        for a, b in unicode_ranges("isdecimal"):
+            assert (b - a + 1) % 10 == 0 and int(chr(a)) == 0 and int(chr(b)) == 9, "unexpected decimal-digit block"
+            runs.append((a, b))
+        _DEC_RUNS = runs
+    isd = E.bind_pred(z, "isdecimal", _DEC_RUNS)
+    val = bv(0)
+    for a, b in reversed(_DEC_RUNS):
+        val = z3.If(z3.And(z >= a, z <= b), z3.URem(z - a, bv(10)), val)
+    return isd, val
+
+
+_DEC_RUNS = None
+
+
 def m_int(x=0, base=10):
     if isinstance(x, SInt):
         return x
@@ -202,29 +221,30 @@ def m_int(x=0, base=10):
     if isinstance(x, SStr):
         if not x.e:
             raise ValueError("invalid literal for int()")
+        if base not in (10, 16):
+            raise Unsupported("int(text, base=%r)" % base)
         val = bv(0)
         mag = 1
         for c in x.e:
             z = ez(c)
-            if base == 16:
-                isd = z3.And(z >= 48, z <= 57)
-                isu = z3.And(z >= 65, z <= 70)
-                isl = z3.And(z >= 97, z <= 102)
-                if not truth(mk_bool(z3.Or(isd, isu, isl))):
-                    if truth(mk_bool(in_ranges(z, _int_extra_ranges()))):
-                        exclude("int(text) with sign/underscore/space/non-ASCII digit")
-                    raise ValueError("invalid literal for int() with base 16")
-                val = val * 16 + z3.If(isd, z - 48, z3.If(isu, z - 55, z - 87))
-                mag *= 16
-            elif base == 10:
-                if not truth(mk_bool(z3.And(z >= 48, z <= 57))):
-                    if truth(mk_bool(in_ranges(z, _int_extra_ranges()))):
-                        exclude("int(text) with sign/underscore/space/non-ASCII digit")
-                    raise ValueError("invalid literal for int() with base 10")
-                val = val * 10 + (z - 48)
-                mag *= 10
+            isd = z3.And(z >= 48, z <= 57)
+            isu = z3.And(z >= 65, z <= 70)
+            isl = z3.And(z >= 97, z <= 102)
+            ascii_ok = z3.Or(isd, isu, isl) if base == 16 else isd
+            if truth(mk_bool(ascii_ok)):
+                d = z3.If(isd, z - 48, z3.If(isu, z - 55, z - 87)) if base == 16 else z - 48
             else:
-                raise Unsupported("int(text, base=%r)" % base)
+                # Python's int() also accepts any Unicode decimal digit ...
+                uni, uval = _unicode_digit_value(z)
+                if truth(mk_bool(z3.And(uni, z > 127))):
+                    d = E.bind(uval, 0, 9)
+                else:
+                    # ... and a sign, underscores between digits and surrounding whitespace: stated exclusion
+                    if truth(mk_bool(in_ranges(z, _int_extra_ranges()))):
+                        exclude("int(text) with sign, underscore or whitespace")
+                    raise ValueError("invalid literal for int() with base %d" % base)
+            val = val * base + d
+            mag *= base
         return SInt(E.bind(val, 0, mag - 1), 0, mag - 1)
     if isinstance(x, SBytes):
         raise Unsupported("int(bytes)")
